@@ -5,7 +5,7 @@
 export GOFLAGS=-mod=mod GOPROXY=off GOSUMDB=off GOTOOLCHAIN=local GOWORK=off
 wt=$1; m=$2; props=${3:-all}
 cd "$wt" || exit 2
-git checkout -q -- . ; git clean -fdq -e '_mutants*'
+git checkout -q -- . ; git clean -fdq -e '_mutants*' -e '_refactors'
 place=$(grep -m1 -o 'place in: *[^ ]*' "$m/demo_test.go" | sed 's/place in: *//')
 [ -z "$place" ] && place=$(grep -m1 -o '[a-z]*/[a-z_0-9]*_test.go' "$m/demo_test.go" "$m/notes.md" | head -1 | sed 's/.*://')
 cp "$m/demo_test.go" "$place" 2>/dev/null || { echo "DEMO-PLACE-UNKNOWN $m"; }
@@ -17,5 +17,5 @@ mut=$(GOARCH=${DEMO_GOARCH:-$(go env GOARCH)} go test $DEMO_FLAGS -vet=off -coun
 rm -f "$place"
 suite=$(go build ./... 2>&1 && go test -vet=off -count=1 ./... 2>&1 | grep -v '^ok' | head -3)
 fired=$(/verif/bin/utilcheck -repo "$wt" -prop $props -no-evidence 2>&1 | grep -a '^VIOLATION' | sed 's/VIOLATION property=\([A-Z0-9]*\).*/\1/' | sort -u | tr '\n' ' ')
-git checkout -q -- . ; git clean -fdq -e '_mutants*'
+git checkout -q -- . ; git clean -fdq -e '_mutants*' -e '_refactors'
 echo "MUTANT $m | demo-clean: ${base:0:40} | demo-mutant: ${mut:0:40} | suite-nonok: ${suite:-none} | FIRED: ${fired:-NONE}"
